@@ -271,6 +271,20 @@ func c10Cases(thorough bool, emit func(c10Case)) {
 	c10Seq(qtoks, qn, " ", func(q string) {
 		emit(c10Case{Kind: "command", Payload: "map " + q})
 	})
+	// every slot of a well-formed query filled with words that are not ASCII: invalid UTF-8 bytes, letters whose lower /
+	// upper case has another byte length (U+023A 2->3 bytes, U+0130 2->3, U+212A KELVIN SIGN 3->1), a wide character, a
+	// combining sequence, a NUL - alone, doubled, and as the name in front of a parenthesis
+	{
+		odd := []string{"\xff", "\xff\xff", "\xc3", "\xe2\x82", "Ⱥ", "ȺȺȺ", "İ", "K", "日本", "e\u0301", "\x00", "ǅ", "ﬁ"}
+		tmpl := []string{"select %s", "select %s(x)", "select %s()", "select count(%s)", "select %s(%s)", "select x from %s", "select x where %s > 1", "select x where x %s 1", "select x where x > %s",
+			"select x where x eq \"%s\"", "select x set $%s = x", "select x set $a = %s(x)", "select x set $a = %s", "select x group by %s", "select x order by %s", "select %s order by %s", "select x interval %s",
+			"select x limit %s", "select x outfile %s", "select x logformat %s", "%s x", "select x %s y", "select `%s`"}
+		for _, t := range tmpl {
+			for _, o := range odd {
+				emit(c10Case{Kind: "command", Payload: "map " + strings.ReplaceAll(t, "%s", o)})
+			}
+		}
+	}
 	// a running map command followed by reads
 	for _, q := range []string{"select count($line) group by $hostname", "select count($line) interval 0", "select x limit 0 logformat csv",
 		"select sum(x) where x > 1 set $y = maskdigits(x) logformat generickv outfile append o.csv"} {
@@ -348,7 +362,7 @@ func init() {
 		ID:    "C10",
 		Level: "exploration",
 		Rule: "client inputs enumerated exhaustively from token alphabets: 9 command words x 12 option suffixes (incl. huge and negative context values) x all sequences of <=2 (quick) / <=3 (thorough) of 16 argument tokens (incl. globs in unclean path form); " +
-			"'map' + all sequences of <=3 / <=4 of 28 query tokens; map followed by a read command; 6 log formats x 4 queries x 5 data files with ragged CSV rows, blank lines, malformed key-value tokens, truncated default-format lines and binary bytes; every ordered pair and triple over 6 well-formed commands (cat of a 1500-line file, cat, tail, grep, two map queries) on one session, back to back and 2 ms apart with 1 ms per read(2) (so that later commands arrive while earlier ones are at work); all <=4-token sequences of 8 protocol-envelope tokens (the short ones also at server log levels fatal/none/info/debug); 3 commands split across two Write " +
+			"'map' + all sequences of <=3 / <=4 of 28 query tokens; 23 well-formed query shapes with every slot filled by each of 13 non-ASCII words (invalid UTF-8 bytes, letters whose case mapping changes the byte length, wide and combining characters, NUL); map followed by a read command; 6 log formats x 4 queries x 5 data files with ragged CSV rows, blank lines, malformed key-value tokens, truncated default-format lines and binary bytes; every ordered pair and triple over 6 well-formed commands (cat of a 1500-line file, cat, tail, grep, two map queries) on one session, back to back and 2 ms apart with 1 ms per read(2) (so that later commands arrive while earlier ones are at work); all <=4-token sequences of 8 protocol-envelope tokens (the short ones also at server log levels fatal/none/info/debug); 3 commands split across two Write " +
 			"calls at every byte; 8 inputs to a health session; plus, under all schedules within two deviations, 4 sessions whose commands finish together so that several goroutines complete the close hand-shake at once.  Each is fed to a real ServerHandler/HealthHandler under the controlled scheduler (panic in ANY goroutine is caught), " +
 			"then a second user's session on the same limiters must still deliver its file.  non-trivial = distinct input strings",
 		Assumptions: []string{
